@@ -98,7 +98,7 @@ theorem keep_scanManual (i : Id) : ∀ (l : List Id) (d : Daemon), i ∉ l → K
     unfold scanManual seq2
     dsimp only
     have hij : i ≠ j := fun e => hi (e ▸ List.mem_cons_self ..)
-    exact Keep.trans (keep_of_others (others_handleIdle d j) hij)
+    exact Keep.trans (keep_of_others (others_handleIdleP d j) hij)
       (keep_scanManual i rest _ (fun x => hi (List.mem_cons_of_mem _ x)))
 
 /-- **Completeness of an epoll round.**  In a state satisfying the invariant, every live connection
